@@ -20,7 +20,7 @@ PROP = {
 # end-to-end (connection-level) pass: real hsmsss / secs1 connections over net.Pipe under random
 # Open/Close/peer histories; a Go-side monitor checks the recorded log (harness/cmd/c05e2e).
 
-E2E_N = {"quick": 634, "thorough": 12000}
+E2E_N = {"quick": 644, "thorough": 12000}
 
 
 def custom(run, tier):
@@ -67,6 +67,10 @@ def custom(run, tier):
                hist.get("parkwrite:released-after-gen2-selected", 0) * 2 >= hist.get("class:parkwrite", 0) > 0
                and any("peerClose" in k for k in pw) and any("closeOpen" in k for k in pw)
                and any("active=True" in k or "active=true" in k for k in pw) and any("active=False" in k or "active=false" in k for k in pw), str(hist))
+    td = {k: v for k, v in hist.items() if k.startswith("t7desel:active=")}
+    run.oblige("e2e: T7 dwell after a Deselect (responder-path select, d swept over 0.2/0.5/0.9/1.5 x T7, re-Select inside the dwell): %d of %d runs reached a verdict, %d variants"
+               % (hist.get("t7desel:verdict", 0), hist.get("class:t7desel", 0), len(td)),
+               hist.get("class:t7desel", 0) > 0 and hist.get("t7desel:verdict", 0) * 10 >= hist.get("class:t7desel", 0) * 8 and len(td) >= 10, str(hist))
     run.oblige("e2e: no goroutine of the rig or of the library outlives the last Close", hist.get("goroutines-left", 0) == 0,
                "\n".join(summary.get("notes") or []))
     run.trusted.append("e2e rig harness/cmd/c05e2e: scripted raw-frame HSMS peer (and an idle SECS-I line) over net.Pipe through the public "
